@@ -27,6 +27,7 @@ pub struct W {
     pub remove: u32,
     pub remove_many: u32,
     pub remove_all: u32,
+    pub remove_old: u32,
     pub entry: u32,
     pub rawmut: u32,
     pub raw: u32,
@@ -74,6 +75,7 @@ fn base_w() -> W {
         remove: 8,
         remove_many: 2,
         remove_all: 1,
+        remove_old: 3,
         entry: 10,
         rawmut: 8,
         raw: 3,
@@ -114,6 +116,7 @@ pub fn profile(prop: Prop, thorough: bool) -> Profile {
     match prop {
         C01 => {
             p.w.z = 12;
+            p.w.remove_old = 6;
         }
         C02 => {
             // long histories, every call measured; big maps come from InsertMany
@@ -132,6 +135,7 @@ pub fn profile(prop: Prop, thorough: bool) -> Profile {
         }
         C03 => {
             p.w.trigger = 14;
+            p.w.remove_old = 6;
             p.w.insert = 14;
             p.w.remove = 12;
             p.w.retain = 6;
@@ -479,6 +483,7 @@ pub fn op_strategy(p: &Profile) -> BoxedStrategy<Op> {
     );
     add(w.remove_many, (slot(), 1u32..=many, any::<u16>()).prop_map(|(s, n, stride)| Op::RemoveMany { s, n, stride }).boxed());
     add(w.remove_all, slot().prop_map(|s| Op::RemoveAll { s }).boxed());
+    add(w.remove_old, (slot(), 0u8..5, prop_oneof![3 => Just(0u8), 2 => 1u8..12]).prop_map(|(s, how, keep)| Op::RemoveOld { s, how, keep }).boxed());
     add(w.entry, (slot(), keysel(), chain()).prop_map(|(s, k, chain)| Op::Entry { s, k, chain }).boxed());
     add(w.rawmut, (slot(), keysel(), rawhow(), chain()).prop_map(|(s, k, how, chain)| Op::RawEntryMut { s, k, how, chain }).boxed());
     add(w.raw, (slot(), keysel(), rawhow()).prop_map(|(s, k, how)| Op::RawEntry { s, k, how }).boxed());
